@@ -27,6 +27,7 @@ def generate(rng, tier):
     for i in range(n):
         g = muxgen.Gen(rng, plain_ok=True, heads=False, fatal=0.15 if rng.random() < 0.3 else 0.0,
                        max_depth=rng.choice([1, 2, 3]))
+        g.no_early = i % 3 == 0      # no take/first: the whole pipeline (tee_map included) is inside the timed plain model
         typ = muxgen.FLT if rng.random() < 0.1 else muxgen.INT
         ast, _ = g.pipe(typ, 0, rng.randint(1, 5))
         if muxgen.has_take(ast):
@@ -309,7 +310,14 @@ def coq_term(case, obs):
             runs.append('([%s], [%s])' % ('; '.join(coq_val(x) for x in items), '; '.join(coq_val(x) for x in p['items'])))
     if not runs:
         return main
-    return 'MCAnd (%s) (MCPlain %s [%s])' % (main, muxlib.coq_pipe(case['ast']), '; '.join(runs))
+    # ... and the timed plain model (Mux/PlainTimed.v, tee_map included) to the same runs, step by step
+    truns = []
+    for items, p in zip(obs.get('groups', []), obs.get('plain', [])):
+        if 'raised' not in p and p['end'] == 'completed' and not p.get('sub'):
+            cl = lambda l: '[%s]' % '; '.join(coq_val(x) for x in l)
+            truns.append('(%s, [%s], %s)' % (cl(items), '; '.join(cl(st) for st in p['steps']), cl(p['final'])))
+    pipe = muxlib.coq_pipe(case['ast'])
+    return 'MCAnd (%s) (MCAnd (MCPlain %s [%s]) (MCPlainT %s [%s]))' % (main, pipe, '; '.join(runs), pipe, '; '.join(truns))
 
 
 def coq_model_expr(case):
@@ -321,7 +329,7 @@ def coq_model_expr(case):
 
 
 CLAIM = {
-    'text': "Theorems (Coq): for every pipeline of the modelled dual-mode operators and every item list, the per-key local machine emits over one lifetime exactly what the pipeline computes on a plain observable (plain_pipe, by structural induction over the pipeline: composition of list functions, so any depth); for EVERY pipeline of the grammar and every well-formed keyed trace (any keys, interleaving, reused slots) the slot-level machine emits during a key's lifetime the timed output of that local machine on the lifetime's items alone (master refinement). Both models are tied to the code: multiplexed run vs Mux model and plain run vs Plain model, on random typed pipelines (depth 1-6, nested tee_map, 3 joins) x 1-4 interleaved groups; model-free oracle: mux result per group == plain result. plain_pipe covers map, filter, flat_map, take, first, last, assert_, assert_1 and scan with or without a terminator (hence count, sum, mean, min, max, variance, stddev, to_list, batch, distinct_until_changed, clip, fill_none, identity, do_action, starmap); tee_map plain/mux join equality and formal.variance/stddev are covered by the oracle and the mux model only, not by plain_pipe.",
+    'text': "Theorems (Coq): for every pipeline of the modelled dual-mode operators and every item list, the per-key local machine emits over one lifetime exactly what the pipeline computes on a plain observable (plain_pipe, by structural induction over the pipeline: composition of list functions, so any depth); for EVERY pipeline of the grammar and every well-formed keyed trace (any keys, interleaving, reused slots) the slot-level machine emits during a key's lifetime the timed output of that local machine on the lifetime's items alone (master refinement). Both models are tied to the code: multiplexed run vs Mux model and plain run vs Plain model, on random typed pipelines (depth 1-6, nested tee_map, 3 joins) x 1-4 interleaved groups; model-free oracle: mux result per group == plain result. plain_pipe covers map, filter, flat_map, take, first, last, assert_, assert_1 and scan with or without a terminator (hence count, sum, mean, min, max, variance, stddev, to_list, batch, distinct_until_changed, clip, fill_none, identity, do_action, starmap); Timed plain semantics (ptimed_pipe: per-item and completion outputs as list functions, tee_map with zip / combine_latest / merge included, take/first excluded because they complete a plain observable early): C01_local_equals_plain_timed proves that the local machine emits step by step what it says, and the real plain runs are compared with it step by step (MCPlainT). tee_map combined with take/first inside, and formal.variance/stddev, are covered by the oracle and the mux model only.",
     'note': 'Trusted: Coq kernel+VM; hand-written models (Mux/*.v, Plain.v) tied by correspondence; RxPY plain operators and synchronous delivery modelled not verified; preconditions of the property (typed accumulators, tee_safe, non-empty groups for first/last/mean) are generator constraints and the `fits` guard of plain_pipe.',
     'technique': 'Coq proof (forward-simulation refinement of a slot-level model by per-key local machines, list-level induction) + vm_compute correspondence against /repo + model-free oracle',
 }
